@@ -1,5 +1,6 @@
 // C05: DR-bar -> on-shell conversion reproduces the input pole masses (or warns) and recovers on-shell parameters.
 #include "gen.hpp"
+#include <sstream>
 #include "gm2calc/gm2_1loop.hpp"
 #include "gm2calc/gm2_2loop.hpp"
 #include "MSSMNoFV/gm2_1loop_helpers.hpp"
@@ -126,6 +127,19 @@ int main(int argc, char** argv) {
       const std::string order = std::string(hard ? "near-degenerate-LR|" : "") + std::string(me[1] < ml[1] ? "R-lighter" : "R-heavier") + (std::fabs(m1) < std::min(std::fabs(m2), std::fabs(mu)) ? "|bino-lightest" : "|bino-not-lightest") + "|prec" + vh::decade(prec);
       const bool warn = B.get_problems().have_warning();
       const double amu_b = calculate_amu_1loop(B) + calculate_amu_2loop(B);
+      // the report channels agree with each other: have_warning() <=> get_warnings() non-empty <=> one of the two convergence records is set; a record that is set
+      // carries a finite accuracy above the requested precision, and the one of me2 is the residual of the right-like smuon observed (hook) after the fit
+      {
+         const auto pm1 = B.get_problems().get_Mu_MassB_MassWB_convergence_problem(), pm2 = B.get_problems().get_me2_convergence_problem();
+         const std::string ws = B.get_problems().get_warnings(); std::ostringstream pw; B.get_problems().print_warnings(pw);
+         const bool rec1 = pm1.precision != 0 || pm1.iterations != 0, rec2 = pm2.precision != 0 || pm2.iterations != 0;
+         bool okr = warn == !ws.empty() && warn == !pw.str().empty() && warn == (rec1 || rec2);
+         if (rec1) okr = okr && std::isfinite(pm1.precision) && pm1.precision > prec;
+         if (rec2) okr = okr && std::isfinite(pm2.precision) && pm2.precision > prec && fit_residual >= 0 && std::fabs(pm2.precision - fit_residual) <= 1e-6 * std::max(pm2.precision, fit_residual) + 1e-12;
+         J w = c; w.i("have_warning", warn).str("get_warnings", ws.substr(0, 200)).d("Mu_M1_M2_record_precision", pm1.precision).i("Mu_M1_M2_record_iterations", pm1.iterations).d("me2_record_precision", pm2.precision).i("me2_record_iterations", pm2.iterations).d("right_smuon_residual_after_the_me2_fit(hook)", fit_residual);
+         o.cell(std::string("report-channels-consistent|") + (warn ? (rec1 && rec2 ? "both-records" : (rec1 ? "Mu,M1,M2-record" : "me2-record")) : "no-warning"), okr ? 0 : 1, &w);
+         if (!okr) o.fail("C05:report-channels-inconsistent", "have_warning(), get_warnings(), print_warnings() and the convergence records (or the recorded me2 accuracy and the observed residual) disagree", w);
+      }
       if (warn) {
          o.cell("warned|" + order, 0, &c);
          const bool fin = std::isfinite(amu_b) && std::isfinite(B.get_Mu()) && std::isfinite(B.get_MassB()) && std::isfinite(B.get_MassWB()) && std::isfinite(B.get_me2(1, 1)) && std::isfinite(B.get_ml2(1, 1));
